@@ -13,6 +13,8 @@ func init() {
 			"Content-Length smaller than body, chunked ok/flipped/short/long/cut, close-delimited ok/short, 404, 408/429/500/502/503, connection reset at 3 stages} and readers drawn from " +
 			"{Get+Read with random chunk sizes, io.Copy, WriteTo, ReadAll, Get closed early, cached ReadAt at random offsets, File.Read/Seek through CollectionFileReader}, serial or 2-8 concurrent on one BlockCache), " +
 			"followed by reads with every service behaving; plus answer kind bigtail (block-sized head, intact or corrupt, then a streamed junk tail of 32 KiB..3 MiB) in the main stream, " +
+			"stream rw: 2-3 handles (>=1 writable) on one file of ONE writable collection filesystem over 1-3 blocks, 6-40 interleaved Seek/Read/Write operations (runs of small consecutive writes, small sequential reads), services misbehaving rarely; " +
+			"the model tracks which byte positions are still Keep-backed and R1/R2 are judged on exactly those bytes (bytes written through the filesystem are counted, not judged); non-trivial there = Keep-backed bytes delivered through a handle after another handle wrote; " +
 			"an exhaustive grid (stream drain: unread remainder x head x framing x reader that stops at the block size / early / never) and early-closed corrupt 1-2.5 MiB blocks (stream bigblock); oracle = harness-generated block bytes + byte-array file model + log of what each service really sent; " +
 			"non-trivial = at least one misbehaving answer was actually served; distinct = distinct (mode, hint, set of answer classes served, outcomes seen) tuples",
 		Assume: []string{"Go's net/http client and server frame responses faithfully (Content-Length, chunking, connection close)",
